@@ -74,6 +74,15 @@ def proof_phase(chk, mod, lean_ok, ltxt):
         bad = [a for a in ax if a not in common.ALLOWED_AXIOMS]
         axioms_seen.update(ax)
         chk.obligation(th, not bad, "axioms: " + ", ".join(ax) if ax else "no axioms")
+    if chk.tier != "quick":
+        # the thorough tier has the compiled modules re-checked by leanchecker (an independent replay of every declaration
+        # through the kernel, from the .olean files)
+        t = time.time()
+        with Lock():
+            for m in [module] + [x for x in getattr(mod, "LEAN_TARGETS", []) if x != module]:
+                ok, txt = common.leancheck(m)
+                chk.obligation("leanchecker:" + m, ok, txt if not ok else "every declaration of the compiled module re-checked")
+        chk.cov["leanchecker_s"] = round(time.time() - t, 1)
     hits = common.grep_forbidden()
     chk.obligation("no-sorry-admit-axiom-native_decide", not hits, "; ".join(hits[:10]))
     chk.cov["axioms_used"] = sorted(axioms_seen)
